@@ -479,6 +479,7 @@ func c18PtrEnvs() (ptr, plain map[string]any) {
 	t1 := time.Date(2024, 2, 29, 13, 14, 15, 0, time.UTC)
 	t2 := time.Date(1999, 12, 31, 23, 59, 59, 0, time.FixedZone("X", 3600))
 	n1, n2, s1 := 7, -2, "str"
+	sa, sb, sc := "apple", "Banana", "cherry"
 	var nt *time.Time
 	var ni *int
 	ptr = map[string]any{
@@ -490,6 +491,7 @@ func c18PtrEnvs() (ptr, plain map[string]any) {
 		"ints": []*int{&n1, nil, &n2}, "times": []*time.Time{&t2, &t1}, "anys": []any{&n1, &s1, &t1, ni},
 		// records whose property is a pointer: map: "n" is a property lookup per element
 		"recs": []any{map[string]any{"n": &n1}, map[string]any{"n": &n2}, map[string]any{"n": &n1}, map[string]any{"n": ni}},
+		"srecs": []any{map[string]any{"s": &sb, "id": 1}, map[string]any{"s": &sa, "id": 2}, map[string]any{"s": &sc, "id": 3}},
 	}
 	plain = map[string]any{
 		"pt": t1, "pn": n1, "ps": s1, "nilt": nil,
@@ -499,6 +501,7 @@ func c18PtrEnvs() (ptr, plain map[string]any) {
 		"mi":   map[string]any{"k": n1, "z": nil},
 		"ints": []any{n1, nil, n2}, "times": []any{t2, t1}, "anys": []any{n1, s1, t1, nil},
 		"recs": []any{map[string]any{"n": n1}, map[string]any{"n": n2}, map[string]any{"n": n1}, map[string]any{"n": nil}},
+		"srecs": []any{map[string]any{"s": sb, "id": 1}, map[string]any{"s": sa, "id": 2}, map[string]any{"s": sc, "id": 3}},
 	}
 	return
 }
@@ -560,7 +563,8 @@ func TestC18(t *testing.T) {
 		}
 		// (filters that look at the elements of an array without a lookup - compact, uniq, sort, contains - are left out:
 		// the statement speaks of pointers reached by variable or property lookup)
-		tpls = append(tpls, `{{ recs | map: "n" | compact | sort | join: "," }}`, `{{ recs | map: "n" | uniq | size }}`, `{{ recs | map: "n" | compact | size }}`, `{% assign ns = recs | map: "n" %}{{ ns contains 7 }}|{{ ns | first | plus: 1 }}`, `{{ recs | sort: "n" | map: "n" | join: "," }}`)
+		tpls = append(tpls, `{{ recs | map: "n" | compact | sort | join: "," }}`, `{{ recs | map: "n" | uniq | size }}`, `{{ recs | map: "n" | compact | size }}`, `{% assign ns = recs | map: "n" %}{{ ns contains 7 }}|{{ ns | first | plus: 1 }}`, `{{ recs | sort: "n" | map: "n" | join: "," }}`,
+			`{{ srecs | sort_natural: "s" | map: "id" | join: "," }}`, `{{ srecs | sort: "s" | map: "id" | join: "," }}`, `{{ srecs | map: "s" | sort_natural | join: "," }}`)
 		tpls = append(tpls, `{% for p in times %}{{ p | date: "%Y" }},{% endfor %}`, `{% for p in ints %}{{ p | plus: 1 }},{% endfor %}`,
 			`{% for kv in m %}{{ kv[0] }}={{ kv[1] }};{% endfor %}`, `{% for kv in mi %}{{ kv[0] }}={{ kv[1] | plus: 1 }};{% endfor %}`, `{{ m | size }}|{{ mi.size }}`, `{% assign q = pt %}{{ q }}|{{ q | date: "%s" }}`, `{% capture q %}{{ pt }}{{ pn }}{{ ps }}{% endcapture %}{{ q }}`)
 		for i, tpl := range tpls {
